@@ -19,15 +19,16 @@ import (
 // c12Round: every listed client performs some local operations, then all their syncs are sent
 // at the same moment from separate goroutines.
 type c12Round struct {
-	Clients []int `json:"clients"`
-	Ops     []int `json:"ops"` // local operations per listed client before the round
-	Patch   bool  `json:"patch"`
-	Reg     bool  `json:"register"` // a new client registers concurrently
+	Clients []int  `json:"clients"`
+	Ops     []int  `json:"ops"` // local operations per listed client before the round
+	Patch   bool   `json:"patch"`
+	Reg     bool   `json:"register"`           // a new client registers concurrently
+	Rev     []bool `json:"reversed,omitempty"` // per listed client: its packs are sent in reverse order (real clients list their datatypes in map order)
 }
 
 func TestC12(t *testing.T) {
 	col := stats.New("C12", t.Name(),
-		"generated WORKLOADS against the real server: after a warm-up (prelude: 2-6 clients subscribed to 1-2 shared keys, so the lock objects already exist and their creators' request contexts are cancelled) rounds in which 2-6 clients first issue local operations and then ALL send their push-pull at the same moment from separate goroutines "+
+		"generated WORKLOADS against the real server: after a warm-up (prelude: 2-6 clients subscribed to 1-2 shared keys, so the lock objects already exist and their creators' request contexts are cancelled) rounds in which 2-6 clients first issue local operations and then ALL send their push-pull (one message with one pack per datatype of the client, the packs in listed or reversed order) at the same moment from separate goroutines "+
 			"(each call with its own request context, cancelled on return), optionally together with a REST patch and a client registration; per-command database latencies of 0-2 ms are drawn as perturbation; after each round the responses are applied; "+
 			"oracle: every call returns within its deadline, the process survives, after every round the stored-log invariants hold (gapless, exactly once, per-client order - i.e. the result equals some one-at-a-time order), at the end everybody converges to refmodel(log); "+
 			"with the -race binary (thorough tier and quick) no DATA RACE report may name server code on both sides (checked by the driver on the process output); "+
@@ -35,7 +36,7 @@ func TestC12(t *testing.T) {
 	col.Assume("Redis is absent (local locks, as the server supports); interleavings inside a handler between two database commands are not controlled")
 	checkProp(t, "C12", col, func(c *caseCtx) {
 		rt := c.rt
-		nk := rapid.IntRange(1, 2).Draw(rt, "keys")
+		nk := rapid.IntRange(1, 3).Draw(rt, "keys")
 		var kinds []sim.Kind
 		for i := 0; i < nk; i++ {
 			kinds = append(kinds, kindFromDraw(rt))
@@ -69,7 +70,7 @@ func TestC12(t *testing.T) {
 				return time.Duration(v%(maxLat+1)) * time.Microsecond
 			})
 		}
-		overlapped := false
+		overlapped, multiPackOpposite := false, false
 		rounds := rapid.IntRange(1, 6).Draw(rt, "rounds")
 		docKey := ""
 		for _, k := range w.keys {
@@ -85,6 +86,7 @@ func TestC12(t *testing.T) {
 				}
 				round.Clients = append(round.Clients, ci)
 				round.Ops = append(round.Ops, rapid.IntRange(0, 4).Draw(rt, fmt.Sprintf("ops%d_%d", r, ci)))
+				round.Rev = append(round.Rev, rapid.Bool().Draw(rt, fmt.Sprintf("rev%d_%d", r, ci)))
 			}
 			round.Patch = docKey != "" && rapid.IntRange(0, 3).Draw(rt, fmt.Sprintf("patch%d", r)) == 0
 			round.Reg = rapid.IntRange(0, 3).Draw(rt, fmt.Sprintf("reg%d", r)) == 0
@@ -115,6 +117,15 @@ func TestC12(t *testing.T) {
 				}
 				reqJob := &job{cl: cl}
 				reqJob.req = cl.pc.BuildRequest()
+				if reqJob.req != nil && round.Rev[i] {
+					ps := reqJob.req.PushPullPacks
+					for a, b := 0, len(ps)-1; a < b; a, b = a+1, b-1 {
+						ps[a], ps[b] = ps[b], ps[a]
+					}
+					if len(ps) > 1 {
+						multiPackOpposite = true
+					}
+				}
 				if reqJob.req != nil {
 					jobs = append(jobs, reqJob)
 				}
@@ -196,6 +207,9 @@ func TestC12(t *testing.T) {
 			c.failf("HARNESS-ERROR: unknown commands %v", u)
 		}
 		var labels []string
+		if multiPackOpposite {
+			labels = append(labels, "multi-pack-requests-in-opposite-orders")
+		}
 		if overlapped {
 			labels = append(labels, "same-key-handlers-overlapped")
 		}
